@@ -32,6 +32,9 @@ for i, pid in enumerate(ids, 1):
     p = props[pid]
     prop = json.dumps({k: p[k] for k in ('id', 'title', 'statement', 'quantifier', 'why_tests_cant')}, indent=1)
     text = base.format(wt=wt, prop=prop, pid=pid)
+    if tag[0] == 'g':
+        text = text.replace('Prefer changes that keep the overall structure of the code (same functions, same if-statements) where that is possible.',
+            'IMPORTANT extra constraint for this round: do NOT change the function that most obviously implements the property. Put the change into something the property depends on only INDIRECTLY - a helper, an accessor, a constructor, a constant or table, a utility in another package, the way a value is passed or stored between two stages - so that the code that "owns" the property still reads exactly as before, yet the property breaks through the dependency. Keep the change small and honest-looking.')
     if structure_preserving:
         text = text.replace('Prefer changes that keep the overall structure of the code (same functions, same if-statements) where that is possible.',
             'IMPORTANT extra constraint for this round: keep the STRUCTURE of the code textually unchanged - do not add, remove or edit any `if` condition, `for`/`range` header, `switch`/`case` line, function signature, `go` statement, channel operation, lock call or `defer`; do not add or remove functions or calls of helper functions. Change only what is INSIDE: an operand, an arithmetic expression, an index or slice bound, a constant, a shift amount, a format verb, the argument of a call, the order of two adjacent plain statements, which variable is assigned or returned. (The existing structure must survive a diff that looks only at conditions and loop headers.)')
